@@ -672,6 +672,7 @@ class Analysis:
         self.has_dunders = {}  # instance -> qualified names of the implicit special methods its class defines in analysed code
         self._fwd = None
         self._upd_memo = None
+        self._upd_memo2 = None
         self.store_origin = None  # (context key, statement) while the values of an attribute-store statement are recorded
         self.pre_add = False  # True while an add that certainly precedes the container's escape is recorded
         self.broken_inv = set()  # (class, field) whose constructor-established invariant is violated by some other store
@@ -2777,8 +2778,7 @@ class Analysis:
                 if not r and o.kind in ("SRC", "GS", "ext", "cont", "glob"):
                     r = {self.UNK, self.NONE}  # a method of library code without tracked result: an untracked value or None
                 out |= r
-            for c in callees:
-                out |= self.apply(c, node, args, kwargs, star_kw, ctx)
+            out |= self.apply_all(callees, node, args, kwargs, star_kw, ctx)
             return out
         callees = self.ev(f, ctx)
         out = set()
@@ -2786,7 +2786,16 @@ class Analysis:
             if self.lookup(f.id, ctx) is not None:
                 return set()  # a local variable that holds no callable (yet): nothing to call
             return self.lib_call(f.id, None, node, args, kwargs, star_kw, ctx)
+        return out | self.apply_all(callees, node, args, kwargs, star_kw, ctx)
+
+    def apply_all(self, callees, node, args, kwargs, star_kw, ctx):
+        out = set()
+        opaque = False
         for c in callees:
+            if c.kind in ("SRC", "GS", "ext", "UNK"):
+                if opaque:
+                    continue  # calling an opaque value: the same effect and the same result object for each of them
+                opaque = True
             out |= self.apply(c, node, args, kwargs, star_kw, ctx)
         return out
 
@@ -2973,11 +2982,17 @@ class Analysis:
             return set()
         if name in ("extend", "update", "difference_update", "intersection_update", "symmetric_difference_update"):
             self.mutate({o}, node, f".{name}()")
-            self.add(el, self.elements(A) | {x for x in A if x.kind not in ("cont",)})
+            # (what the arguments contribute is the same for every receiver of this call: computed once per call)
+            memo = self._upd_memo2
+            if memo is None or memo[0] is not args or memo[1] != name:
+                elA = self.elements(A)
+                memo = self._upd_memo2 = (args, name, elA | {x for x in A if x.kind not in ("cont",)},
+                                          self.pair_values(elA) if name == "update" else None, self.pair_keys(A) if name == "update" else None)
+            self.add(el, memo[2])
             if name == "update":
                 # dict.update(iterable of (key, value) pairs): the values are the new elements
-                self.add(el, self.pair_values(self.elements(A)))
-                self.add(self.F[(o, "keys")], self.pair_keys(A))
+                self.add(el, memo[3])
+                self.add(self.F[(o, "keys")], memo[4])
             for _, (_, s) in kwargs.items():
                 self.add(el, s)
             return set()
